@@ -152,6 +152,8 @@ def build_replay(profile, compiler, log_dir):
         shutil.copyfile(src, dst)
         os.chmod(dst, 0o755)
         _replay_built[key] = dst
+        import atexit
+        atexit.register(lambda p=dst: os.path.exists(p) and os.remove(p))
         return dst
 
 
